@@ -65,7 +65,9 @@ CLAIMED["C04"] = dict(
         "stream); theorems: scanner keeps letters / counts punctuation as gaps; reading FASTA or Clustal presentations (any widths, blank lines, gap glyphs, padding, junk lines) "
         "yields the same names and residues; formats agree; letter histogram and detected kind depend on residues only. Oracle: real runs on re-presentations (gap densities to 50 "
         "per residue, widths, Clustal/MSF renderings, 2..5 files) vs the plain FASTA run.",
-   note="MSF header phase for arbitrary third-party headers is an explicit hypothesis (`read_msf_presentation_partial`); proved for files kalign writes. Known finding C04-split-class.",
+   note="MSF headers: proved for an explicit grammar of header lines (free text, any Name:/Len:/Check:/Weight: layout; msfHeader_grammar, read_msf_presentation) that covers "
+        "what kalign writes and PileUp-style headers; names > 255 bytes / with blanks / a `//` inside a name line are outside it. Several files: read_split_files / "
+        "split_same_as_one_file under the explicit class hypothesis that is the recorded finding C04-split-class.",
    technique="Lean 4 proofs over a byte-level reader model; differential correspondence; presentation oracle",
    ref="4 C04")
 CLAIMED["C06"] = dict(
@@ -84,9 +86,11 @@ CLAIMED["C15"] = dict(
    ref="4 C15")
 CLAIMED["C16"] = dict(
    text="Lean state machine of the API (handles, read/run/write/compare/free/kalign, library globals = OpenMP thread count + mask flag, allocation ledger): globals are "
-        "overwritten before use, every op's output in any history equals its output in a fresh process on the same argument objects (induction over op lists), ledger balanced "
-        "(partial: histories without failing reads; the failing-read leak found this way is fixed in /repo). Frame obligations (writable globals, thread-count use sites) regenerated "
-        "and pinned. Search: random API histories with several live handles in one sanitizer-instrumented process vs per-object replays in fresh processes; LeakSanitizer at exit.",
+        "overwritten before use, every op's output in any history equals its output in a fresh process on the same argument objects (induction over op lists), after freeing all live "
+        "handles the allocation ledger is empty for EVERY history incl. every failing read/run/write path (ledger_balanced, hypothesis-free since the three leaks the proof attempt "
+        "located were repaired in /repo: 4036b80, 7d4bd68, 4c3a0a7). Frame obligations (writable globals, thread-count use sites) regenerated "
+        "and pinned. Search: random API histories with several live handles in one sanitizer-instrumented process vs per-object replays in fresh processes; LeakSanitizer at exit; allocation ledger by allocator interposition (no-OpenMP build), "
+        "incl. reads of files that cannot be opened (EMFILE).",
    note="Heap-reuse effects are what the functional model cannot exhibit; the history search looks for them. OpenMP pool excluded via LSan suppressions.",
    technique="Lean 4 induction over API histories + regenerated frame facts; differential history replay with LeakSanitizer",
    ref="4 C16")
@@ -116,18 +120,26 @@ CLAIMED["C07"] = dict(
         "(C07_ssForward_spec / C07_ssBackward_spec), meetup = first argmax over cuts (C07_ssMeet_*), every level's reading lies within proved slacks of the reference score "
         "(C07_level_bounds, C07_sub_level_bounds; the originally assumed lower bound is refuted by C07_claimed_lower_bound_fails), and C07_hirschberg_seqseq_opt / C07_alnRun_opt: "
         "if P beats every other alignment by gpo*nterm(P) + max(0,tgpe-gpe,tgpe-gpo) + max(0,gpe-tgpe) + len_b/2000, the controller (serial and parallel entry) returns exactly P. "
-        "Sequence-profile and profile-profile kernels: optimality is checked by the independent full-matrix reference DP with the same proved margin on groups of identical copies.",
-   note="PARTIAL: optimality proved for the seq-seq kernels on the exact carrier; profile kernels and the binary32 instance are tied by bit-exact correspondence and the certified "
-        "oracle (A-float). Known finding C07-terminal-gap-split (inconsistent terminal-gap objective; the proved margin quantifies it).",
+        "Groups of identical copies (Props/C07Prof): a profile built from k copies by make_profile/set_gap_penalties/diagonal updates in ANY merge order is k times the "
+        "sequence (C07_profile_of_copies); on such profiles the sequence-profile and profile-profile kernels ARE the sequence-sequence kernels with all scores scaled by K = k*m "
+        "and the tie-break term unscaled (C07_sp/pp_kernels_scaled), so optimality lifts with the margin K*(S_T(P) - slack) > K*S_T(Q) + columns "
+        "(C07_hirschberg_seqprofile/profileprofile_copies_opt; C07_doAlign_*_opt in do_align's orientation incl. operand swap and mirror_path). Independent full-matrix "
+        "reference DP (harness/ops_ref.c) as end-to-end oracle with the proved margin, incl. a stream for the task-parallel controller (>= 500 columns, 2..16 threads).",
+   note="Optimality is proved on the exact score carrier; the binary32 instance is tied by bit-exact correspondence and the certified oracle (A-float). The profile-profile lift "
+        "assumes a symmetric substitution matrix (proved for the protein table; checked for the others by decide). Known finding C07-terminal-gap-split (inconsistent "
+        "terminal-gap objective; the proved margin quantifies it).",
    technique="Lean 4 proofs: DP kernel specifications, cut decomposition, per-level reading bounds, Hirschberg optimality under a margin; bit-exact Float32 model correspondence; "
              "independent-DP certified oracle",
    ref="4 C07")
 CLAIMED["C08"] = dict(
    text="Lean theorems: every admissible default parameter set satisfies Φ (regenerated tables, `decide`); under Φ the gap-free diagonal of (s,s) strictly beats every other valid "
         "column list even under the most favourable reading of its gap costs (C08_diag_unique_opt, also scaled for groups); if every merge uses the diagonal the final rows are the "
-        "input strings for any tree (C08_identical_msa_nogaps). That the implementation returns the strict optimum is C07's tie. Search: all-identical inputs (IUPAC, all-N, all-X, "
+        "input strings for any tree (C08_identical_msa_nogaps). That the modelled Hirschberg controller returns the diagonal on identical operands is proved from C07's optimality "
+        "theorems (Props/C08Opt: C08_identical_pair_diag for a pair, C08_identical_groups_diag / _seq_group_ / _group_seq_ for k vs m copies, both entry points; "
+        "C08_identical_pair_diag_table instantiates it on a regenerated table row via a decidable per-sequence check). Search: all-identical inputs (IUPAC, all-N, all-X, "
         "homopolymers), 2..500 copies, lengths to 5000, all types, threads 1..16, both APIs.",
-   note="inherits C07's partiality (optimality of the Hirschberg implementation is oracle-checked). User penalties are outside the property.",
+   note="The C08Opt margin hypothesis fails for sequences containing the wildcard code 22 (self score -1) and for the DNA row with tgpe = 0: there the diagonal is only searched "
+        "end to end (all-N / all-X / IUPAC streams), not proved. Exact carrier (A-float). User penalties are outside the property.",
    technique="Lean 4 combinatorial inequality over regenerated matrices; end-to-end oracle",
    ref="4 C08")
 CLAIMED["C17"] = dict(
